@@ -297,6 +297,11 @@ def adc(img, gain, saturation_capacity=None, warn_saturate=False, dtype=None):
 
     """
     img = np.asarray(img)
+    if img.dtype.kind == 'f' and img.dtype.itemsize < 8:
+        # single / half precision frames are digitised in double precision
+        # (the capacity would otherwise be rounded to the frame's precision
+        # in the comparison and the clip below)
+        img = img.astype(float)
 
     # Enforce saturation capacity
     if saturation_capacity is not None:
